@@ -17,7 +17,7 @@ Byte strings travel as `x<hex>` (`x` alone = empty), an absent attribute as `non
            decidable hypothesis `wellFormed` evaluated on it, and the two excluding hypotheses of the
            `_partial` theorems for the variant under test
   `summaryx …` (same arguments)                      -> `x<rendered text> lay=<0|1> rb=<0|1>`   rows not claimed to be explorer-made
-  `post`                                             -> `ok` | `rejected:<csv|invalid|notScenario>` | `panic`   POST the last rendered text
+  `post`                                             -> `ok` | `rejected` | `panic`   POST the last rendered text
   `posttext x<hex>`                                  -> the same, for an arbitrary body
   `get <label>`      -> `notfound` | `panic` | `found e=<Encoding attribute> n=<Summary attribute> p=<ParetoFrontMember attribute> f=<active flags|panic>`
   `patch <encoding>` -> `rejected` | `member=<0|1|none>`     PATCH /model, then the ParetoFrontMember attribute of GET /model
@@ -100,9 +100,9 @@ def parseSummary (ws : List String) : Option (List Bytes × List Row) :=
 def postStr : Post → String
   | .ok _ => "ok"
   | .panic _ => "panic"
-  | .rejected .csv => "rejected:csv"
-  | .rejected .invalid => "rejected:invalid"
-  | .rejected .notScenario => "rejected:notScenario"
+  -- WHY the engine refuses a summary (not CSV / a malformed cell / not of this scenario) is told apart by the model; the
+  -- implementation says it in a message text only, whose wording is nobody's contract: the class is not printed
+  | .rejected _ => "rejected"
 
 def cachedStr (c : Cached) : String :=
   s!"found e={hx c.enc} n={match c.note with | some n => hx n | none => "none"} p={Driver.boolStr c.member} f={flagsStr c.flags}"
@@ -110,9 +110,9 @@ def cachedStr (c : Cached) : String :=
 def respStr : Resp → String
   | .ok => "ok"
   | .panic => "panic"
-  | .rejected .csv => "rejected:csv"
-  | .rejected .invalid => "rejected:invalid"
-  | .rejected .notScenario => "rejected:notScenario"
+  -- WHY the engine refuses a summary (not CSV / a malformed cell / not of this scenario) is told apart by the model; the
+  -- implementation says it in a message text only, whose wording is nobody's contract: the class is not printed
+  | .rejected _ => "rejected"
   | .notFound => "notfound"
   | .found c => cachedStr c
   | .patchRejected => "rejected"
